@@ -178,6 +178,7 @@ pub fn analyze_s<M: Mask>(info: &Info<M>, cfg: &RunCfg, res: &RunRes, out: &mut 
     let mut inflight = 0usize;
     let mut f = Facts::default();
     let mut int_at: Option<usize> = None;
+    let mut ready_at_mid: Option<M> = None;
     let mut polled = false;
     let mut releases_in_window = 0usize;
     let fail_mask: M = mask_of(n, |i| api.is_try() && cfg.fail.get(i).copied().unwrap_or(false));
@@ -227,6 +228,20 @@ pub fn analyze_s<M: Mask>(info: &Info<M>, cfg: &RunCfg, res: &RunRes, out: &mut 
             Ev::Interrupt => {
                 int_at = Some(start_order.len());
                 f.interrupt_before_first_poll = !polled;
+            }
+            Ev::InterruptMid => {
+                // sent by a user future while the call is being polled: functions whose
+                // predecessors had all returned at that moment may already have been taken off the
+                // ready queue (a concurrent call dequeues before it polls what it holds)
+                int_at = Some(start_order.len());
+                f.interrupt_before_first_poll = false;
+                let mut m = M::zero(n);
+                for i in 0..n {
+                    if !started.get(i) && !info.built_direct(i, rev).and_not(&ended).any() {
+                        m.set(i);
+                    }
+                }
+                ready_at_mid = Some(m);
             }
             Ev::Poll { .. } => {
                 polled = true;
@@ -339,7 +354,11 @@ pub fn analyze_s<M: Mask>(info: &Info<M>, cfg: &RunCfg, res: &RunRes, out: &mut 
     }
     // C08
     if let Some(k) = int_at {
-        let after = start_order.len() - k;
+        let mut after = start_order.len() - k;
+        if let (Some(m), true) = (&ready_at_mid, concurrent) {
+            // mid-poll signal, concurrent call: only functions that became ready after the signal count
+            after = start_order[k..].iter().filter(|&&i| !m.get(i)).count();
+        }
         let bound = match cfg.strat {
             Strat::Finish | Strat::NextN(0) => {
                 if !cfg.include || f.interrupt_before_first_poll {
